@@ -10,7 +10,11 @@ Block body (both modes):
     probe <items…>
     h <cfgidx> <item> <values…>  real hash values (model mode; bloom / cms / hll)
     script <reg> <draws…>        reservoir: the register's random script
-    op add <r> <item> <count> | op merge <t> <s> | op clear <r>
+    op add <r> <item> <count> | op merge <t> <s> | op clear <r> | op look <r> <item>
+`look` is a membership / frequency question put to ONE register (bloom: contains, cms: estimate, topk:
+estimate_with_error); it changes nothing (`SeqOp.skip`) and its answer is the extra line `l<r> …` right after the
+operation line.  Programs made of explicit questions run with an empty `probe` list, so that every register has its own
+history of questions (a sketch that remembers earlier questions must still answer like the sketch of its stream).
 Judge mode: after `init` and after every `op` line the implementation's snapshot of *every* register
 `obs r<i> …`, for bloom/cms/hll the reference sketches `obs w<i> …` (a fresh sketch fed with the
 register's logical stream), for t-digest `obs q<i> keys…` (quantiles on an increasing grid).
@@ -68,6 +72,13 @@ def parseSeqOp {α : Type} (item : String → α) (compat : Nat → Nat → Bool
   | ["merge", t, s] =>
     if compat (natD t) (natD s) then some (.merge (natD t) (natD s), false) else some (.skip, true)
   | ["clear", r] => some (.clear (natD r), false)
+  | ["look", _, _] => some (.skip, false)
+  | _ => none
+
+/-- `look r x` → `(r, x)` -/
+def lookOf (ts : List String) : Option (Nat × Nat) :=
+  match ts with
+  | ["look", r, x] => some (natD r, natD x)
   | _ => none
 
 /-! ### model mode -/
@@ -77,6 +88,8 @@ structure SeqKind (σ α : Type) where
   item : String → α
   showReg : Nat → σ → String
   hasRef : Bool
+  /-- the answer of register `r` (in state `s`) to a question about item `x` -/
+  look : Nat → σ → Nat → String := fun _ _ _ => "-"
 
 def snapLines {σ α : Type} (K : SeqKind σ α) (regs : List σ) (ls : List (List (α × Nat))) : List String :=
   (regs.zipIdx.map fun p => s!"r{p.2} {K.showReg p.2 p.1}") ++
@@ -91,7 +104,13 @@ def runKind {σ α : Type} (K : SeqKind σ α) (sc : Scn) (body : List String) :
       | some (op, rej) =>
         let regs' := seqStep K.alg regs op
         let ls' := seqStep (logicalAlg α) ls op
-        [s!"s {j} {joinSp ts}"] ++ (if rej then ["err ValueError"] else []) ++ snapLines K regs' ls'
+        [s!"s {j} {joinSp ts}"] ++ (if rej then ["err ValueError"] else [])
+          ++ (match lookOf ts with
+              | some (r, x) => (match regs[r]? with
+                                | some st => [s!"l{r} {K.look r st x}"]
+                                | none => [])
+              | none => [])
+          ++ snapLines K regs' ls'
           ++ go regs' ls' (j + 1) rest
   let regs0 := seqInit K.alg sc.nregs
   let ls0 := seqInit (logicalAlg α) sc.nregs
@@ -106,6 +125,7 @@ def bloomKind (sc : Scn) (ht : HTab) : SeqKind Bloom Nat where
     s!"n {b.n} st {showNats ((List.range b.m).filter b.bit)} " ++
       showQ (sc.probes.map fun x => if b.contains (ht.fn (sc.cfgIdx r)) x then 1 else 0)
   hasRef := true
+  look r b x := if b.contains (ht.fn (sc.cfgIdx r)) x then "1" else "0"
 
 def cmsKind (sc : Scn) (ht : HTab) : SeqKind CMS Nat where
   alg := cmsAlg (fun r => ht.fn (sc.cfgIdx r)) (fun r => sc.num r 0) (fun r => sc.num r 1)
@@ -114,6 +134,7 @@ def cmsKind (sc : Scn) (ht : HTab) : SeqKind CMS Nat where
     s!"n {s.n} st {showNats ((List.range s.d).flatMap fun row => (List.range s.w).map fun c => s.cell row c)} " ++
       showQ (sc.probes.map (s.estimate (ht.fn (sc.cfgIdx r))))
   hasRef := true
+  look r s x := toString (s.estimate (ht.fn (sc.cfgIdx r)) x)
 
 def hllKind (sc : Scn) (ht : HTab) : SeqKind HLL Nat where
   alg := hllAlg (fun r x => ht.fn (sc.cfgIdx r) x 0) (fun r => sc.num r 0)
@@ -131,6 +152,9 @@ def topkKind (sc : Scn) : SeqKind TopK Nat where
         let q := s.query x
         s!"{x}:{showBool q.1}:{q.2.1}:{q.2.2}")
   hasRef := false
+  look _ s x :=
+    let q := s.query x
+    s!"{x}:{showBool q.1}:{q.2.1}:{q.2.2}"
 
 def resKind (sc : Scn) (body : List String) : SeqKind (Res × List Nat) Nat where
   alg := resAlg (fun r => sc.num r 0) (fun r =>
@@ -186,7 +210,7 @@ def obsOf (obs : List (List String)) (tag : String) (i : Nat) : Option (List Str
 
 /-- everything register `i` reported, for the frame clause -/
 def fullObs (obs : List (List String)) (i : Nat) : Option (List String) :=
-  (obsOf obs "r" i).map fun r => r ++ ["#"] ++ ((obsOf obs "q" i).getD [])
+  (obsOf obs "r" i).map fun r => r ++ ["#"] ++ ((obsOf obs "q" i).getD []) ++ ["#"] ++ ((obsOf obs "c" i).getD [])
 
 /-- `n N st … | q …` -/
 def parseSObs (ts : List String) : Option SObs :=
@@ -203,26 +227,39 @@ structure JCtx where
   sc : Scn
   merged : Bool               -- the register's logical history contains a merge since its last clear
   reg : Nat
+  look : Option Nat := none   -- the operation just executed was a question to this register about this item
 
 def checkMergeable (lower : Option (Stream → Nat → Nat)) (c : JCtx) (xs : Stream)
-    (r : List String) (w : Option (List String)) : Option String :=
+    (r : List String) (w : Option (List String)) (l : Option (List String)) : Option String :=
   let kind := c.sc.kind
   match parseSObs r, w.bind parseSObs with
   | some o, some ref =>
     if !mergeIsConcat o ref then some s!"{kind}/merge/not-sketch-of-concatenation"
     else if o.n != total xs then some s!"{kind}/count/item-count-not-stream-total"
     else match lower with
-      | some lo => Judge.check (lowerOk (lo xs) c.sc.probes o.q) s!"{kind}/seq/one-sided-bound-broken"
+      | some lo =>
+        (Judge.check (lowerOk (lo xs) c.sc.probes o.q) s!"{kind}/seq/one-sided-bound-broken").or <|
+          -- an explicit question: the one-sided bound against the register's logical stream as it is now
+          match c.look with
+          | some x =>
+            match l with
+            | some [a] => Judge.check (lowerOk (lo xs) [x] [natD a]) s!"{kind}/lookup/one-sided-bound-broken"
+            | _ => some s!"{kind}/missing-observation"
+          | none => none
       | none => none
   | _, _ => some s!"{kind}/missing-observation"
 
 /-- `n N thr T maxerr E top i:c:e… | q x:t:c:e…` -/
-def checkTopK (c : JCtx) (xs : Stream) (r : List String) : Option String :=
+def checkTopK (c : JCtx) (xs : Stream) (r : List String) (l : Option (List String)) : Option String :=
   if c.merged then none else
   match r with
   | "n" :: n :: "thr" :: _ :: "maxerr" :: _ :: "top" :: rest =>
     let top := Judge.parseTop (rest.takeWhile (· != "|"))
-    let qs := (rest.dropWhile (· != "|")).drop 2
+    let qs := (rest.dropWhile (· != "|")).drop 2 ++
+      (match c.look, l with
+       | some _, some ans => ans
+       | some _, none => ["missing"]
+       | none, _ => [])
     if !topkSumOk xs top (natD n) then some "topk/sum/counters-do-not-sum-to-N" else
     qs.findSome? fun q =>
       match q.splitOn ":" with
@@ -246,7 +283,13 @@ def checkRes (c : JCtx) (xs : Stream) (r : List String) : Option String :=
     else none
   | _ => some "reservoir/missing-observation"
 
-def checkTd (xs : List (Int × Nat)) (r : List String) (q : Option (List String)) : Option String :=
+def parseCents (ts : List String) : List (Int × Nat) :=
+  ts.filterMap fun s => match s.splitOn ":" with
+    | [k, c] => some (intD k, natD c)
+    | _ => none
+
+def checkTd (xs : List (Int × Nat)) (r : List String) (q : Option (List String)) (cents : Option (List String)) :
+    Option String :=
   let live := (xs.filter (fun p => p.2 > 0)).map (·.1)
   let n := (xs.map (·.2)).foldl (· + ·) 0
   match r with
@@ -256,7 +299,11 @@ def checkTd (xs : List (Int × Nat)) (r : List String) (q : Option (List String)
     | some qs, some lo, some hi =>
       if !nondecreasing (ints qs) then some "tdigest/quantile/not-monotone"
       else if !withinMinMax lo hi (ints qs) then some "tdigest/quantile/outside-min-max"
-      else none
+      else match cents, r with
+        -- the tie with the quantile model, on the real object's own centroids / min / max / item_count
+        | some cs, ["n", n'', "min", mn, "max", mx] =>
+          Judge.tdTieCheck (parseCents cs) (intD mn) (intD mx) (natD n'') (qs.length - 1) (ints qs)
+        | _, _ => none
     | none, some _, some _ => some "tdigest/missing-observation"
     | _, _, _ => none
   | _ => some "tdigest/missing-observation"
@@ -277,6 +324,7 @@ def judgeKind {α : Type} (sc : Scn) (item : String → α)
       match parsed with
       | none => some "seq/malformed-judge-input"
       | some (op, _) =>
+        let lk := lookOf ts
         let ls' := seqStep (logicalAlg α) ls op
         let merged' := match op with
           | .merge t _ => merged.set t true
@@ -289,7 +337,8 @@ def judgeKind {α : Type} (sc : Scn) (item : String → α)
           | none => true
         if !frame then some s!"{sc.kind}/frame/untouched-sketch-changed" else
         match (List.range n).findSome? fun r =>
-            check ⟨sc, merged'.getD r false, r⟩ (ls'.getD r []) obs with
+            check ⟨sc, merged'.getD r false, r, lk.bind fun p => if p.1 == r then some p.2 else none⟩
+              (ls'.getD r []) obs with
         | some sig => some sig
         | none => go ls' merged' (some cur) rest
   match go (seqInit (logicalAlg α) n) (List.replicate n false) none (groups body) with
@@ -298,20 +347,20 @@ def judgeKind {α : Type} (sc : Scn) (item : String → α)
 
 def judgeSeq (body : List String) : List String :=
   let sc := Scn.parse body
-  let natCheck := fun (f : JCtx → Stream → List String → Option (List String) → Option String) =>
+  let natCheck := fun (f : JCtx → Stream → List String → Option (List String) → Option (List String) → Option String) =>
     fun (c : JCtx) (xs : Stream) (obs : List (List String)) =>
       match obsOf obs "r" c.reg with
-      | some r => f c xs r (obsOf obs "w" c.reg)
+      | some r => f c xs r (obsOf obs "w" c.reg) (obsOf obs "l" c.reg)
       | none => some s!"{c.sc.kind}/missing-observation"
   if sc.kind == "bloom" then judgeKind sc natD (natCheck (checkMergeable (some bloomLower))) body
   else if sc.kind == "cms" then judgeKind sc natD (natCheck (checkMergeable (some cmsLower))) body
   else if sc.kind == "hll" then judgeKind sc natD (natCheck (checkMergeable none)) body
-  else if sc.kind == "topk" then judgeKind sc natD (natCheck fun c xs r _ => checkTopK c xs r) body
-  else if sc.kind == "reservoir" then judgeKind sc natD (natCheck fun c xs r _ => checkRes c xs r) body
+  else if sc.kind == "topk" then judgeKind sc natD (natCheck fun c xs r _ l => checkTopK c xs r l) body
+  else if sc.kind == "reservoir" then judgeKind sc natD (natCheck fun c xs r _ _ => checkRes c xs r) body
   else if sc.kind == "tdigest" then
     judgeKind sc intD (fun c xs obs =>
       match obsOf obs "r" c.reg with
-      | some r => checkTd xs r (obsOf obs "q" c.reg)
+      | some r => checkTd xs r (obsOf obs "q" c.reg) (obsOf obs "c" c.reg)
       | none => some "tdigest/missing-observation") body
   else ["viol seq/malformed-judge-input"]
 
